@@ -339,6 +339,35 @@ theorem C24_disabled_404 (valid : List Char → Bool) (tc : Bool) (f : Flags) (r
         simp [hMd]
     · rw [hs] at h401; exact absurd rfl h401
 
+/-! ### gating as CONFIGURED
+
+agent.go builds `health.ServerConfig` from `cfg.HTTP.PprofEnabled()` / `DashboardEnabled()` /
+`RemoteAPIEnabled()`; the `gate` ops serve requests through the handler of an agent built by
+`agent.New` from parsed YAML, for every combination of `minimal` × {unset, true, false}³, and compare
+with `serve … (flagsOfConfig h)`. -/
+
+/-- Minimal mode disables every endpoint group whatever the per-group flags say; otherwise a group is
+    disabled exactly when its flag is set to false. -/
+theorem C24_minimal_overrides (h : HTTPCfg) (hm : h.minimal = true) :
+    flagsOfConfig h = ⟨false, false, false⟩ := by
+  simp [flagsOfConfig, groupEnabled, hm]
+
+/-- … so in minimal mode any request in the area of any group, past authentication and not
+    redirected, answers 404 from a `disabledHandler` without provider calls. -/
+theorem C24_minimal_404 (valid : List Char → Bool) (tc : Bool) (h : HTTPCfg) (r : Req) (g : Nat)
+    (hm : h.minimal = true) (hg : g = 1 ∨ g = 2 ∨ g = 3) (hin : inGroup g r)
+    (h401 : (serve valid tc (flagsOfConfig h) r).status ≠ .s401)
+    (h301 : (serve valid tc (flagsOfConfig h) r).status ≠ .s301) :
+    (serve valid tc (flagsOfConfig h) r).status = .s404 ∧ (serve valid tc (flagsOfConfig h) r).mayCall = false := by
+  have hoff : (flagsOfConfig h).on g = false := by
+    rw [C24_minimal_overrides h hm]
+    rcases hg with rfl | rfl | rfl <;> rfl
+  have hg0 : g ≠ 0 := by rcases hg with rfl | rfl | rfl <;> decide
+  have := C24_disabled_404 valid tc (flagsOfConfig h) r g hg0 hoff hin h401 h301
+  exact ⟨this.1, this.2.1⟩
+
+example : flagsOfConfig ⟨false, none, some false, some true⟩ = ⟨true, false, true⟩ := rfl
+
 /-! ### non-vacuity -/
 
 private def rq (conn : Bool) (p : Raw) (auth q : List Char) : Req := ⟨conn, p, auth, q⟩
